@@ -96,6 +96,11 @@ Proof. exact inl_equal_sound. Qed.
 Theorem C01_inline_equalconst_sound : forall env r a v, okn env a -> 0 < snd r -> 0 <= v < 2 ^ 31 ->
   forall l e, inl_equalconst r a v = [(l, e)] -> assign_value env l e = b2z (val env a =? v).
 Proof. exact inl_equalconst_sound. Qed.
+(* the constant masked to the operand's width (what the simulated Minterm network compares with, and what the repaired emitter prints):
+   EVERY integer K; the only guard is that the literal fits 32 bits signed, i.e. operands up to 31 bits *)
+Theorem C01_inline_equalconst_masked_sound : forall env r a K, okn env a -> 0 < snd r -> snd a <= 31 ->
+  forall l e, inl_equalconst r a (K mod 2 ^ snd a) = [(l, e)] -> assign_value env l e = b2z (val env a =? K mod 2 ^ snd a).
+Proof. exact inl_equalconst_masked_sound. Qed.
 
 (* BitsLSBF / BitsMSBF: the assign emitted for listed wire k stores what propagate() stores into that wire, every k *)
 Theorem C01_inline_bits_sound : forall env a b k, okn env a -> 0 < snd b -> 0 <= k < snd a -> k < 2 ^ 31 ->
@@ -163,6 +168,7 @@ Print Assumptions C01_inline_nary_sound.
 Print Assumptions C01_inline_nnary_sound.
 Print Assumptions C01_inline_equal_sound.
 Print Assumptions C01_inline_equalconst_sound.
+Print Assumptions C01_inline_equalconst_masked_sound.
 Print Assumptions C01_inline_bits_sound.
 Print Assumptions C01_bits_propagate_nth.
 Print Assumptions C01_reg_sound_partial.
